@@ -416,6 +416,26 @@ theorem fast_multiply_eq (F2 : FieldOps β) (F3 : FieldOps γ) (mul : α → β 
   · have h' : degree F a + degree F2 b < 0 := by omega
     simp [h, h']
 
+/-- regenerated `fast_square` on top of the transforms `ntt`/`intt` (parameters) = hand model -/
+theorem fast_square_eq (T : Transform α) (p : List α) :
+    TF.Gen.Poly.fast_square F T.ntt T.intt p = fastSquare F T p := by
+  obtain ⟨n, hn, hp, hd⟩ := normalize_prefix F p
+  simp only [TF.Gen.Poly.fast_square, degree_eq, Option.bind_some, fastSquare, hp, hd, TF.Gen.Poly.zero, TF.Gen.Poly.new,
+    TF.Gen.Poly.from_constant, beq_iff_eq]
+  match n, p, hn with
+  | 0, _, _ => simp
+  | 1, c :: p, _ => simp
+  | n + 2, c0 :: c1 :: p, hn =>
+    have h1 : ¬ (((n + 2 : Nat) : Int) - 1 = -1) := by omega
+    have h2 : ¬ (((n + 2 : Nat) : Int) - 1 = 0) := by omega
+    have h3 : (((n + 2 : Nat) : Int) - 1).toNat = n + 1 := by omega
+    have h4 : (0 : Int) ≤ ((n + 2 : Nat) : Int) - 1 := by omega
+    have hl : (List.take n p).length = n := by
+      simp only [List.length_cons] at hn
+      simp only [List.length_take]; omega
+    simp only [h1, h2, if_false, toUsize?, h4, if_true, h3, Option.bind_some, List.take_succ_cons, List.length_cons, hl]
+    rfl
+
 /-! ### long division -/
 open TF.Model.PolyD in
 /-- inner loop of `naive_divide` (`remainder[remainder_degree - i] -= q * divisor_coeff` over `enumerate()`), on the remainder
